@@ -3,8 +3,9 @@
 // cfg   : <mutex kind> <throwing user-call index>...
 //         mutex kind 0 shared_timed_mutex (the default M), 1 shared_mutex, 2 timed_mutex, 3 mutex
 // ops   : 0 fid        modify_detach(functor fid)
-//         1 fid slot   futures[slot] = modify_async(functor fid); slot >= 100: the functor returns void (future<void>,
-//                      get() reported as 0)
+//         1 fid slot   futures[slot] = modify_async(functor fid); slot 100..199: the functor returns void (future<void>,
+//                      get() reported as 0); slot >= 200: the functor returns a reference to the payload (future<VPay&>,
+//                      get() reported as 0 when it refers to the protected object, else K_FAULT 11 and -5)
 //         2 h          handles[h] = lock_shared()                (no-op, -1, when slot h is in use)
 //         3 h          handles[h] = try_lock_shared()
 //         4 h          handles[h] = try_lock_shared_for(1ms)     (no-op, -1, when M has no timed forms)
@@ -131,9 +132,10 @@ struct Inst: IInst {
     // per-thread tables; declared after dg so that they are destroyed first
     std::vector<std::map<long, std::unique_ptr<Handle>>> handles;
     std::vector<std::map<long, std::future<long>>> futures;
-    std::vector<std::map<long, std::future<void>>> vfutures;  // slots >= 100
+    std::vector<std::map<long, std::future<void>>> vfutures;  // slots 100..199
+    std::vector<std::map<long, std::future<VPay&>>> rfutures;  // slots >= 200: the functor returns a reference to the payload
 
-    explicit Inst(int nthreads): dg(0L), handles(nthreads), futures(nthreads), vfutures(nthreads) {}
+    explicit Inst(int nthreads): dg(0L), handles(nthreads), futures(nthreads), vfutures(nthreads), rfutures(nthreads) {}
 
     template<class F>
     long acquire(int tid, long h, F&& f)
@@ -157,6 +159,16 @@ struct Inst: IInst {
             }
             case 1: {
                 long fid = o[1];
+                if (o[2] >= 200) {
+                    // reference-returning modification function: the future must refer to the protected object itself
+                    std::future<VPay&> fut = dg.modify_async([fid](VPay& x) -> VPay& {
+                        vs::user_call(fid);
+                        x.write(apply_f(fid, x.read()));
+                        return x;
+                    });
+                    rfutures[tid][o[2]] = std::move(fut);
+                    return 0;
+                }
                 if (o[2] >= 100) {
                     std::future<void> fut = dg.modify_async([fid](VPay& x) {
                         vs::user_call(fid);
@@ -179,15 +191,25 @@ struct Inst: IInst {
             case 3: return acquire(tid, o[1], [&] { return dg.try_lock_shared(); });
             case 4:
                 if constexpr (mutex_traits<M>::timed) {
-                    return acquire(tid, o[1], [&] { return dg.try_lock_shared_for(std::chrono::milliseconds(1)); });
+                    {
+                    // optional third argument (ignored by the model): 1 = zero duration, 2 = negative duration
+                    const long z = o.size() > 2 ? o[2] : 0;
+                    const auto d = std::chrono::milliseconds(z == 1 ? 0 : (z == 2 ? -5 : 1));
+                    return acquire(tid, o[1], [&] { return dg.try_lock_shared_for(d); });
+                }
                 } else {
                     return -1;
                 }
             case 5:
                 if constexpr (mutex_traits<M>::timed) {
-                    return acquire(tid, o[1], [&] {
-                        return dg.try_lock_shared_until(std::chrono::steady_clock::now() + std::chrono::milliseconds(1));
-                    });
+                    {
+                    // optional third argument (ignored by the model): 1 = default-constructed (epoch) deadline, 2 = now - 1 h
+                    const long z = o.size() > 2 ? o[2] : 0;
+                    const auto now = std::chrono::steady_clock::now();
+                    const auto tp = z == 1 ? std::chrono::steady_clock::time_point{}
+                                           : (z == 2 ? now - std::chrono::hours(1) : now + std::chrono::milliseconds(1));
+                    return acquire(tid, o[1], [&] { return dg.try_lock_shared_until(tp); });
+                }
                 } else {
                     return -1;
                 }
@@ -209,6 +231,11 @@ struct Inst: IInst {
             }
             case 9: return dg.load().peek();
             case 10: {
+                if (o[1] >= 200) {
+                    auto rit = rfutures[tid].find(o[1]);
+                    if (rit == rfutures[tid].end()) return -1;
+                    return rit->second.wait_for(std::chrono::seconds(0)) == std::future_status::ready ? 1 : 0;
+                }
                 if (o[1] >= 100) {
                     auto vit = vfutures[tid].find(o[1]);
                     if (vit == vfutures[tid].end()) return -1;
@@ -219,6 +246,27 @@ struct Inst: IInst {
                 return it->second.wait_for(std::chrono::seconds(0)) == std::future_status::ready ? 1 : 0;
             }
             case 11: {
+                if (o[1] >= 200) {
+                    auto rit = rfutures[tid].find(o[1]);
+                    if (rit == rfutures[tid].end()) return -1;
+                    if (rit->second.wait_for(std::chrono::seconds(0)) != std::future_status::ready) return -2;
+                    long r = 0;
+                    try {
+                        VPay& ref = rit->second.get();
+                        if (&ref != &dg.m_obj) {  // the future refers to something else than the protected object (a dead copy)
+                            vs::fault(&dg.m_obj, 11);
+                            r = -5;
+                        }
+                    }
+                    catch (const vs::VThrow&) {
+                        r = -3;
+                    }
+                    catch (...) {
+                        r = -4;
+                    }
+                    rfutures[tid].erase(rit);
+                    return r;
+                }
                 if (o[1] >= 100) {
                     auto vit = vfutures[tid].find(o[1]);
                     if (vit == vfutures[tid].end()) return -1;
